@@ -256,6 +256,84 @@ class Lang:
         L.accepts |= {a + off for a in other.accepts}
         return L
 
+    def determinise(self):
+        """-> complete deterministic Lang (states: subsets; a dead state is
+        added) with the same language"""
+        sets = set()
+        for lst in self.trans:
+            for (bs, _t) in lst:
+                sets.add(bs)
+        class_of, reps = rx.partition(sets)
+        members = {}
+        for b in range(256):
+            members.setdefault(class_of[b], set()).add(b)
+        D = Lang()
+        start = frozenset(self.starts)
+        ids = {start: D.new()}
+        D.starts.add(ids[start])
+        queue = [start]
+        while queue:
+            S = queue.pop()
+            if S & self.accepts:
+                D.accepts.add(ids[S])
+            for ci, rep in enumerate(reps):
+                T = frozenset(t for s in S for (bs, t) in self.trans[s]
+                              if rep in bs)
+                if T not in ids:
+                    ids[T] = D.new()
+                    queue.append(T)
+                D.trans[ids[S]].append((frozenset(members[ci]), ids[T]))
+        return D
+
+    def complement(self):
+        D = self.determinise()
+        D.accepts = set(range(len(D.trans))) - D.accepts
+        return D
+
+    def intersect(self, other):
+        return self.complement().union(other.complement()).complement()
+
+    def difference_witness(self, other):
+        """a string in exactly one of the two languages, with the side it is
+        in: (bytes, 'left'|'right'), or None when the languages are equal"""
+        w = self.not_subset_witness(other)
+        if w is not None:
+            return w, 'left'
+        w = other.not_subset_witness(self)
+        if w is not None:
+            return w, 'right'
+        return None
+
+    @staticmethod
+    def all_strings():
+        L = Lang()
+        s0 = L.new()
+        L.starts.add(s0)
+        L.accepts.add(s0)
+        L.trans[s0].append((frozenset(range(256)), s0))
+        return L
+
+    @staticmethod
+    def empty():
+        L = Lang()
+        L.starts.add(L.new())
+        return L
+
+    def concat(self, other):
+        """L(self) . L(other)   (epsilon-free NFAs: accepting states of self
+        get copies of the start transitions of other)"""
+        L = self.copy()
+        off = len(L.trans)
+        for lst in other.trans:
+            L.trans.append([(bs, t + off) for (bs, t) in lst])
+        for a in self.accepts:
+            for s0 in other.starts:
+                L.trans[a].extend(L.trans[s0 + off])
+        L.accepts = {a + off for a in other.accepts}
+        if other.starts & other.accepts:
+            L.accepts |= set(self.accepts)
+        return L
+
     def not_subset_witness(self, other):
         """None if L(self) subseteq L(other), else a string in the
         difference."""
